@@ -83,9 +83,23 @@ func vfC14Gen(rt *rapid.T) vfC14Case {
 			if kind == Cosine && vfIsZero(v) {
 				return vfVecOp{Op: "add_bad", ID: vfGenFreshID(rt, used), Vec: v}
 			}
-			id := vfGenFreshID(rt, used)
+			id := uint32(0)
+			if len(removed) > 0 && rapid.IntRange(0, 4).Draw(rt, "re_add_removed_id") == 0 {
+				// update = remove + add: the id of a removed vector comes back with other content
+				j := rapid.IntRange(0, len(removed)-1).Draw(rt, "re_add_idx")
+				id = removed[j]
+				removed = append(removed[:j:j], removed[j+1:]...)
+				for _, l := range live {
+					if l == id {
+						id = 0 // (listed twice in removed: it is live again already)
+					}
+				}
+			}
+			if id == 0 {
+				id = vfGenFreshID(rt, used)
+				all = append(all, id)
+			}
 			live = append(live, id)
-			all = append(all, id)
 			vecs[id] = v
 			return vfVecOp{Op: "add", ID: id, Vec: v}
 		case w < 45:
@@ -432,8 +446,12 @@ func vfC14Run(c vfC14Case, ctx *vfCtx) *vfViolation {
 			if len(vec) != dim || kind == Cosine && vfIsZero(vec) {
 				continue
 			}
-			if _, dup := live[op.ID]; dup || resident[op.ID] || op.ID == 0 {
+			if _, dup := live[op.ID]; dup || op.ID == 0 {
 				continue
+			}
+			if resident[op.ID] {
+				delete(resident, op.ID)
+				ctx.Class("re_add_of_a_removed_id")
 			}
 			if err := idx.Add(*NewVectorNodeWithID(op.ID, vfCloneF32(vec))); err != nil {
 				return vfFail("op %d: Add(%d): %v", i, op.ID, err)
